@@ -95,6 +95,12 @@ def build_harness(name, vinfo, rc=True, interpose=False, extra='', libs='-lcrypt
             shutil.rmtree(hdir)
         os.makedirs(hdir)
         cmd = [cxx] + flags.split() + extra.split()
+        try:
+            cfg = open(os.path.join(vinfo['include'], 'config.h')).read()
+            m = re.search(r'^#define ENABLE_FAILURE_TOKENS (\d+)', cfg, re.M)
+            cmd.append('-DVF_FAILURE_TOKENS=%s' % (m.group(1) if m else '0'))
+        except OSError:
+            pass
         if not rc:
             cmd.append('-DVF_NO_RC')
         gen = os.path.join(vbuild.BUILD, 'gen')
@@ -158,6 +164,16 @@ def run_procs(jobs, timeout_s):
                 logf.close()
                 del running[i]
     return results
+
+
+def write_fuzz_seeds(corpus):
+    """A few small valid inputs (one per entry point x setting template), matching harness/fuzz_decode.hpp."""
+    n = 0
+    for entry in range(8):
+        for templ in range(26):
+            b = bytes([entry, 0x10 + (templ & 15), templ % 3, 0, 0, 16, 0, 0, 0, templ, 10]) + b'saltSALT./' + bytes([8, 0]) + b'passw0rd' + bytes(range(16))
+            open(os.path.join(corpus, 'seed-%03d' % n), 'wb').write(b)
+            n += 1
 
 
 def load_known():
@@ -342,6 +358,52 @@ def run_check(prop, spec, tier, replay_path=None):
         nsh = pt.get('shards', NCPU)
         jobs = []
         dirs = []
+        if ph['mode'] == 'fuzz':
+            try:
+                fb = build_harness('fuzz_api', vinfo, rc=False, fuzzer=True, interpose=spec.get('interpose', False))
+            except vbuild.BuildError as e:
+                print('BUILD-ERROR property=%s\n%s' % (prop, e))
+                return 2
+            for k in range(nsh):
+                d = os.path.join(wdir, '%s-%02d' % (ph['name'], k))
+                corpus = os.path.join(d, 'corpus')
+                os.makedirs(corpus)
+                dirs.append(d)
+                if k % 2 == 1:
+                    write_fuzz_seeds(corpus)
+                env = chk.env()
+                env.update(VF_OUT=d, VF_PROP=prop, VF_BUDGET_MS=str(pt.get('budget_ms', 40)))
+                s = derive_seed(seed, prop, ph['name'], k)
+                cmd = [fb, '-runs=%d' % pt.get('runs', 100000), '-seed=%d' % ((s & 0x7fffffff) or 1), '-max_len=4096', '-timeout=25',
+                       '-rss_limit_mb=4000', '-artifact_prefix=%s/' % d, '-print_final_stats=1', '-max_total_time=%d' % pt.get('max_time', 120), corpus]
+                jobs.append(dict(cmd=cmd, env=env, cwd=d, log=os.path.join(d, 'log.txt')))
+            res = run_procs(jobs, pt.get('max_time', 120) + 120)
+            nt = 0
+            for k, rc in enumerate(res):
+                d = dirs[k]
+                if rc == 0:
+                    continue
+                if rc == 'timeout':
+                    nt += 1
+                    notes.append('fuzz worker %d hit the wall-clock limit (inconclusive)' % k)
+                    continue
+                fc = os.path.join(d, 'fail.case')
+                arts = [a for a in os.listdir(d) if a.startswith(('crash-', 'leak-'))]
+                if os.path.exists(fc):
+                    confirm(fc, 'oracle failure in fuzz worker %d' % k)
+                elif arts:
+                    raw = open(os.path.join(d, arts[0]), 'rb').read()
+                    cp = os.path.join(d, 'crash.case')
+                    open(cp, 'w').write('fuzzraw=%s\n' % raw.hex())
+                    if spec.get('fuzz_crashes_count', True):
+                        confirm(cp, 'sanitizer report in fuzz worker %d' % k)
+                    else:
+                        notes.append('fuzz worker %d: sanitizer report on %s (memory-safety matter, decided by C04)' % (k, arts[0]))
+                else:
+                    notes.append('fuzz worker %d ended with status %s without a crash artefact (timeout/oom/slow-unit are load noise)' % (k, rc))
+            phase_dirs += dirs
+            phase_info.append(dict(phase=ph['name'], mode='fuzz', shards=nsh, timeouts=nt, runs_per_worker=pt.get('runs')))
+            continue
         for k in range(nsh):
             d = os.path.join(wdir, '%s-%02d' % (ph['name'], k))
             os.makedirs(d)
